@@ -322,6 +322,62 @@ def setOctets (c : Cfg) (m : Bytes) (L : Layout) (data : Bytes) : WriteOut :=
   else if (data.length : Int) > L.cap then ⟨[], .error .value⟩
   else writeCmds c m L data
 
+/-! ## the write-back cache after a failed write, and a retry on the same NDEF object
+
+The memory reader holds two images: `_data_in_cache` (what the code wants on the tag) and
+`_data_from_tag` (what it believes to be on the tag).  `_write_to_tag` sends a unit and only
+THEN copies it into `_data_from_tag`, so when a command is lost (exception) the belief is the
+image of the commands that were acknowledged - the real tag content (`syncLost_coherent`).  A
+later `_write_ndef_data` on the same object therefore runs with tag image `T` and cache `C`. -/
+
+/-- `_write_to_tag` over the units `is` when the command with number `j` (0-based) is lost:
+returns (belief `_data_from_tag`, real tag content) -/
+def syncLost (u : Nat) (cache : Bytes) : List Nat → Nat → Bytes × Bytes → Bytes × Bytes
+  | [], _, st => st
+  | i :: is, j, (belief, tag) =>
+    if sliceN cache (i * u) (i * u + u) ≠ sliceN belief (i * u) (i * u + u) then
+      match j with
+      | 0 => (belief, tag)      -- the command is lost: exception, nothing is recorded
+      | j + 1 => syncLost u cache is j
+          (writeAt belief (i * u) (sliceN cache (i * u) (i * u + u)), writeAt tag (i * u) (sliceN cache (i * u) (i * u + u)))
+    else syncLost u cache is j (belief, tag)
+
+/-- `_write_ndef_data` on an NDEF object whose memory reader believes the tag holds `T` and whose
+cache holds `C` (a fresh object: `T = C = m`) -/
+def writeCmdsFrom (c : Cfg) (T C : Bytes) (L : Layout) (data : Bytes) : WriteOut :=
+  match phase1 c C L.off with
+  | .error e => ⟨[], .error e⟩
+  | .ok m1 =>
+    let c1 := diffUnits c.unit T m1
+    match phase2 c m1 L.off L.skip L.areaEnd data with
+    | .error e => ⟨c1, .error e⟩
+    | .ok m2 =>
+      let c2 := diffUnits c.unit m1 m2
+      match phase3a c m2 L.off data.length with
+      | .error e => ⟨c1 ++ c2, .error e⟩
+      | .ok m3a =>
+        let c3a := diffUnits c.unit m2 m3a
+        match phase3 c m3a L.off data.length with
+        | .error e => ⟨c1 ++ c2 ++ c3a, .error e⟩
+        | .ok m3 => ⟨c1 ++ c2 ++ c3a ++ diffUnits c.unit m3a m3, .ok ()⟩
+
+/-- tag content and cache content after command number `k` (0-based) of the write of `data`
+was lost; `none` when the write has no such command (or fails otherwise) -/
+def failedWrite (c : Cfg) (m : Bytes) (L : Layout) (data : Bytes) (k : Nat) : Option (Bytes × Bytes) :=
+  match writeNdef c m L data with
+  | .error _ => none
+  | .ok ph =>
+    let c1 := diffUnits c.unit m ph.m1
+    let c2 := diffUnits c.unit ph.m1 ph.m2
+    let c3a := diffUnits c.unit ph.m2 ph.m3a
+    let c3 := diffUnits c.unit ph.m3a ph.m3
+    let all := c1 ++ c2 ++ c3a ++ c3
+    if k < c1.length then some (apply m (all.take k), ph.m1)
+    else if k < c1.length + c2.length then some (apply m (all.take k), ph.m2)
+    else if k < c1.length + c2.length + c3a.length then some (apply m (all.take k), ph.m3a)
+    else if k < all.length then some (apply m (all.take k), ph.m3)
+    else none
+
 /-! ## Type 2 `_format` (repaired: terminator placed like the writer does) -/
 
 /-- `for offset in range(a, end): if offset not in skip: memory[offset] = wipe & 0xFF` -/
